@@ -119,7 +119,7 @@ PROPERTIES = {
                  "add_event in the past under catch_unwind on marked events, the clock writer is observed through hook H4 and the event set is walked "
                  "through H6; every third program is additionally driven in random n-event / until-time steps, and after every step add_event(sim_time() - 1 ns) "
                  "is attempted on the paused runtime (half of these stepped runs also add events from outside while paused, at / after the reported time). Oracle: now == scheduled, non-decreasing, each event exactly once, every add at/after now accepted, every "
-                 "add before now / before the start time / before the time reported while paused rejected and never dispatched, end time = last event. Every 20 programs a net-level probe injects messages at absolute timestamps through Runtime<Sim>::add_message_onto / handle_message_on - before the run with start time 0 / 5 s / 10^6 s, and on a runtime paused by an until-step: each is handled at exactly its timestamp, an injection below the current time is rejected. The same driver also runs against des built without the cqueue feature (BinaryHeap event set; stage heap-backend, both tiers). Non-trivial = program with >= 3 events that ran clean; "
+                 "add before now / before the start time / before the time reported while paused rejected and never dispatched, end time = last event. Every 20 programs a net-level probe injects messages at absolute timestamps through Runtime<Sim>::add_message_onto / handle_message_on - before the run with start time 0 / 5 s / 10^6 s, and on a runtime paused by an until-step: each is handled at exactly its timestamp, an injection below the current time is rejected. Every 20 programs a small application runs on a timeline beyond 2^64 ns (start time 18 446 744 000 s, events up to 400 s later with relative and absolute follow-ups): now == scheduled, non-decreasing, adds at / after now accepted, end time = last event. The same driver also runs against des built without the cqueue feature (BinaryHeap event set; stage heap-backend, both tiers). Non-trivial = program with >= 3 events that ran clean; "
                  "distinct = hash of the program."),
         "assumptions": ["the handlers of the monitor application are the observation boundary; H4 observes every SimTime::set_now",
                         "start times are restricted to those the calendar queue can reach by scanning <= 1e6 buckets from zero (a larger start time "
@@ -133,10 +133,11 @@ PROPERTIES = {
             "quick": {"events_handled": 1000000, "past_adds_rejected_in_handlers": 20000, "programs_with_nonzero_start": 50000,
                       "pre_run_adds_before_start_rejected": 50000, "clock_writes_observed": 1000000, "event_set_walks": 100000,
                       "stepped_runs": 20000, "paused_adds_below_reported_time_rejected": 50000,
-                      "programs_starting_beyond_10_7_seconds": 2000, "heap_events_handled": 200000, "net_injection_probes": 4000},
+                      "programs_starting_beyond_10_7_seconds": 2000, "heap_events_handled": 200000, "net_injection_probes": 4000,
+                      "runs_on_a_timeline_beyond_2_64_ns": 4000},
             "thorough": {"events_handled": 50000000, "past_adds_rejected_in_handlers": 1000000, "programs_with_nonzero_start": 1000000,
                          "pre_run_adds_before_start_rejected": 1000000, "clock_writes_observed": 50000000, "heap_events_handled": 1000000,
-                         "programs_starting_beyond_10_7_seconds": 30000, "net_injection_probes": 80000},
+                         "programs_starting_beyond_10_7_seconds": 30000, "net_injection_probes": 80000, "runs_on_a_timeline_beyond_2_64_ns": 80000},
         },
     },
     "C10": {
@@ -289,7 +290,7 @@ PROPERTIES = {
                  "spawn bursts of N tasks that yield k times and optionally sleep to a common deadline (timer wake-up of N tasks at once), notify_waiters "
                  "broadcasts to N waiting tasks, wake chains of depth <= 2000 through oneshot / mpsc / semaphore / join handles (a third of them alternating between tokio::spawn and spawn_local tasks), one task draining up to 10000 "
                  "channel items in one instant (tokio coop budget), N tasks woken by a processing element that consumes the trigger message (the handler never runs "
-                 "in that event), a handler that fires its trigger and requests the shutdown of its module in the same event, 1..8 tasks awaiting timeout(1 ms / 1 s / 7 s, oneshot) that a sibling task answers in the same event (the timeout's timer is armed and disarmed within one instant) and then sleeping 1 ms..10 s, 1..6 tasks holding an idle timer (pinned sleep) that is re-armed 1..3 times within one event to the deadline it is already registered for, 1..6 tasks holding two sleeps with the same deadline of which the first registered is dropped and the other awaited, and (one trigger in 300) a single task that stays runnable for 300000..600000 polls within one instant (the executor then needs a noticeable amount of wall-clock time; only virtual time may decide when the task continues); N in {1,2,60,61,62,122,123,200,1000,5000}; each with tokio::spawn and with spawn_local "
+                 "in that event), a handler that fires its trigger and requests the shutdown of its module in the same event, 1..8 tasks awaiting timeout(1 ms / 1 s / 7 s, oneshot) that a sibling task answers in the same event (the timeout's timer is armed and disarmed within one instant) and then sleeping 1 ms..10 s, 1..6 tasks holding an idle timer (pinned sleep) that is re-armed 1..3 times within one event to the deadline it is already registered for, 1..6 tasks holding two sleeps with the same deadline of which the first registered is dropped and the other awaited, 1..5 tasks awaiting timeout(3 s / 10 s, oneshot) that a later message of the module answers after 1 s / 2 s (the timer is cancelled in a later event, before its deadline) and then sleeping past the cancelled deadline, and (one trigger in 300) a single task that stays runnable for 300000..600000 polls within one instant (the executor then needs a noticeable amount of wall-clock time; only virtual time may decide when the task continues); N in {1,2,60,61,62,122,123,200,1000,5000}; each with tokio::spawn and with spawn_local "
                  "(every tenth case: spawn_local work needing more than one LocalSet turn of 61 polls). Every task logs SimTime::now() after each await; the "
                  "instant its condition became true is known by construction; a later sentinel event of the module makes stranded work visible. Oracle: "
                  "logged now == enabling instant for every wake-up, every task finished at the end. Non-trivial = case with an instant needing > 61 polls; "
@@ -305,12 +306,12 @@ PROPERTIES = {
                       "scenarios_message_consumed_by_processing_element": 500,
                       "scenarios_timeout_answered_within_the_instant_then_sleep": 800,
                       "scenarios_sleep_rearmed_to_its_own_deadline": 700, "scenarios_one_task_runnable_for_over_300000_polls": 10,
-                      "scenarios_twin_timers_first_dropped": 600},
+                      "scenarios_twin_timers_first_dropped": 600, "scenarios_timeout_answered_in_a_later_event_then_sleep": 500},
             "thorough": {"wakeups_observed": 100000000, "instants_needing_more_than_61_polls": 60000, "instants_needing_more_than_122_polls": 40000,
                          "scenarios_with_spawn_local": 30000, "spawn_local_over_budget_cases": 6000,
                          "scenarios_timeout_answered_within_the_instant_then_sleep": 15000,
                          "scenarios_sleep_rearmed_to_its_own_deadline": 12000, "scenarios_one_task_runnable_for_over_300000_polls": 200,
-                         "scenarios_twin_timers_first_dropped": 10000},
+                         "scenarios_twin_timers_first_dropped": 10000, "scenarios_timeout_answered_in_a_later_event_then_sleep": 8000},
         },
     },
     "C09": {
